@@ -4,6 +4,9 @@ pub mod c03_arith;
 pub mod c04_jump;
 pub mod c12_stack;
 pub mod c13_gas;
+pub mod c15_c19;
+pub mod c20_wrappers;
+pub mod c21_collision;
 pub mod c27_bytecode;
 pub mod c28_inspectors;
 pub mod c32_blob;
@@ -23,6 +26,9 @@ pub fn dispatch(ctx: &Ctx) -> i32 {
         "C28" => online_props::run_c28(ctx),
         "C29" => online_props::run_c29(ctx),
         "C30" => online_props::run_c30(ctx),
+        "C15" | "C16" | "C17" | "C18" | "C19" => c15_c19::run(ctx),
+        "C20" => c20_wrappers::run(ctx),
+        "C21" => c21_collision::run(ctx),
         "C12" => c12_stack::run(ctx),
         "C13" => c13_gas::run(ctx),
         "C32" => c32_blob::run(ctx),
